@@ -1273,3 +1273,83 @@ Proof.
   destruct (en_ids en =? 0). { unfold rfail. cbn [snd]. lc. split; [lia|fin]. }
   destruct (forallb _ revs); [unfold rret|unfold rfail]; cbn [snd]; lc; (split; [lia|fin]).
 Qed.
+
+(* ------------------------------------------------------------------------------------- *)
+(* ASCII armor                                                                            *)
+(* ------------------------------------------------------------------------------------- *)
+Lemma lenN_rev : forall (l : bytes), lenN (rev l) = lenN l.
+Proof. intros. rewrite !lenN_length, rev_length. reflexivity. Qed.
+
+Lemma find_nl_spec : forall k l acc line rest, find_nl k l acc = Some (line, rest) ->
+  lenN line + 1 + lenN rest = lenN acc + lenN l.
+Proof.
+  induction k as [|k IH]; intros l acc line rest H; cbn [find_nl] in H; [discriminate|].
+  destruct l as [|c r]; [discriminate|]. destruct (c =? 10).
+  - inversion H; subst. rewrite lenN_rev, lenN_cons. lia.
+  - apply IH in H. rewrite !lenN_cons in *. lia.
+Qed.
+
+Lemma strip_cr_len : forall l, lenN (strip_cr l) <= lenN l.
+Proof.
+  intros l. unfold strip_cr. destruct (rev l) as [|x r] eqn:E; [lia|].
+  destruct (x =? 13); [|lia].
+  rewrite lenN_rev. assert (lenN (rev l) = lenN r + 1) by (rewrite E, lenN_cons; lia). rewrite lenN_rev in H. lia.
+Qed.
+
+Lemma lenN_firstn_skipn : forall n (l : bytes), lenN (firstn n l) + lenN (skipn n l) = lenN l.
+Proof. intros. rewrite <- lenN_app, firstn_skipn. reflexivity. Qed.
+
+(* a line: what it holds and what is left are within what was there, and something was consumed *)
+Lemma read_line_spec : forall r line pre rest, read_line r = Some (line, pre, rest) ->
+  lenN line + lenN rest <= lenN r /\ lenN rest < lenN r /\ (pre = false -> lenN line + lenN rest < lenN r \/ rest = []).
+Proof.
+  intros r line pre rest H. unfold read_line in H. destruct r as [|x0 r0]; [discriminate|].
+  set (r := x0 :: r0) in *. assert (R1 : 1 <= lenN r) by (subst r; rewrite lenN_cons; lia).
+  destruct (find_nl armor_bufsize r []) as [[ln rs]|] eqn:F.
+  - inversion H; subst line pre rest. apply find_nl_spec in F. rewrite lenN_nil in F. pose proof (strip_cr_len ln). split; [lia|]. split; [lia|]. intros _. left. lia.
+  - destruct (Nat.ltb (length r) armor_bufsize) eqn:LT.
+    + inversion H; subst line pre rest. rewrite lenN_nil. split; [lia|]. split; [lia|]. intros _. right. reflexivity.
+    + apply Nat.ltb_ge in LT. unfold armor_bufsize in *. cbn [Nat.pred] in H.
+      pose proof (lenN_firstn_skipn 100 r) as FS. pose proof (lenN_firstn_skipn 99 r) as FS2.
+      assert (L100 : lenN (firstn 100 r) = 100) by (rewrite lenN_length, firstn_length; lia).
+      assert (L99 : lenN (firstn 99 r) = 99) by (rewrite lenN_length, firstn_length; lia).
+      set (f100 := firstn 100 r) in *. set (s100 := skipn 100 r) in *. set (s99 := skipn 99 r) in *. clearbody f100 s100 s99.
+      destruct (rev f100) as [|c p'] eqn:RV.
+      * inversion H; subst line pre rest. split; [lia|]. split; [lia|]. discriminate.
+      * assert (LR : lenN (rev f100) = lenN p' + 1) by (rewrite RV, lenN_cons; lia). rewrite lenN_rev in LR.
+        destruct (c =? 13); inversion H; subst line pre rest; try rewrite lenN_rev; (split; [lia|]); (split; [lia|discriminate]).
+Qed.
+
+Lemma lenN_take_le : forall n (l : bytes), lenN (take n l) <= lenN l.
+Proof.
+  induction n; intros l; cbn [take]; [rewrite lenN_nil; lia|]. destruct l; [lia|].
+  rewrite !lenN_cons. specialize (IHn l). lia.
+Qed.
+
+Lemma trim_left_len : forall l, lenN (trim_left l) <= lenN l.
+Proof. induction l as [|c r IH]; cbn [trim_left]; [lia|]. destruct (is_space c); [rewrite lenN_cons; lia|lia]. Qed.
+
+Lemma trim_space_len : forall l, lenN (trim_space l) <= lenN l.
+Proof.
+  intros l. unfold trim_space. rewrite lenN_rev.
+  pose proof (trim_left_len (rev (trim_left l))). pose proof (trim_left_len l). rewrite lenN_rev in H. lia.
+Qed.
+
+Lemma buffer_grow_spec : forall cap n,
+  let '(cap', lg) := buffer_grow cap n in
+  log_cost lg + 2 * cap <= 2 * cap' /\ cap <= cap' /\ (cap' <= cap \/ cap' <= 3 * n + 64) /\ log_okc area_max lg.
+Proof.
+  intros cap n. unfold buffer_grow. destruct (N.leb_spec n cap) as [L|L].
+  - cbn [log_cost]. fin.
+  - cbn [log_cost alloc_sz]. fin.
+Qed.
+
+(* The armor reader's cost statement (header loop at 40 per octet, value buffer at most three times
+   the longest value, one Block per BEGIN line, the base64 body through io.ReadAll) is not proved
+   yet: the lemmas above (read_line_spec, buffer_grow_spec, the length lemmas) are its ingredients.
+   Every entry of the armor reader's log is a Grow entry (no request is sized from a field of the
+   input), which is what armor_decode is checked for on every case by the two-sided comparison. *)
+
+(* requests made from a length field, in the typed parsers and ReadEntity *)
+Lemma okc_in : forall c l sz rem, log_okc c l -> In (Make sz rem) l -> sz <= rem \/ sz <= c.
+Proof. intros c l sz rem O I. unfold log_okc in O. rewrite Forall_forall in O. exact (O _ I). Qed.
